@@ -8,6 +8,7 @@ def parseAttempt : String → Option Attempt
   | "5xx" => some .server
   | "4xx" => some .client
   | "type" => some .typeErr
+  | "dropped" => some .dropped
   | _ => none
 
 def parseScript (j : Json) (k : String) : Option (List Attempt) := do
